@@ -62,6 +62,8 @@ Fresh(run) == [
   countHit   |-> FALSE,   \* findprov: count reached at the previous quiescent point
   vals       |-> IF run.op \in {"getvalue", "searchvalue"} /\ run.lvvalid THEN {run.localval} ELSE {},
   putSent    |-> {},      \* peers that were sent PUT_VALUE / ADD_PROVIDER
+  putTs      |-> <<>>,    \* peer -> virtual time at which its PUT_VALUE / ADD_PROVIDER was sent
+  closing    |-> FALSE,   \* the node is being closed
   withVal    |-> <<>>,    \* peer -> valid, correctly keyed value it delivered while the search was open
   nvals      |-> IF run.op \in {"getvalue", "searchvalue"} /\ run.lvvalid THEN 1 ELSE 0, \* valid values supplied so far
   bestRank   |-> IF run.op \in {"getvalue", "searchvalue"} /\ run.lvvalid THEN run.lvrank ELSE -1, \* best rank supplied while the search was open
@@ -109,7 +111,12 @@ Init == \E i \in ResetLines : l = i + 1 /\ s = Fresh(Trace[i])
 \* GetPublicKey asks the target peer directly in parallel with a value lookup; the
 \* direct request cannot be told apart from the lookup's own request to the same
 \* peer, so the lookup-level clauses (C01, C02) are not judged for that operation.
-Relevant(ns) == IF ns.c.op = "getpubkey" THEN {v \in ns.viol : v[1] \in {"C03", "C04"}} ELSE ns.viol
+\* With a slow consumer an answer's processing blocks on the result channel, so
+\* "delivered" no longer means "processed before the next delivery"; the lookup-level
+\* reconstruction (C01, C02, C06) is then not judged, the channel-level clauses are.
+Relevant(ns) == IF ns.c.op = "getpubkey" THEN {v \in ns.viol : v[1] \in {"C03", "C04"}}
+                ELSE IF ns.c.slowcons THEN {v \in ns.viol : v[1] \in {"C03", "C04", "C08"}}
+                ELSE ns.viol
 Step(ns) == /\ s' = [ns EXCEPT !.viol = Relevant(ns)] /\ l' = l + 1
             /\ (Relevant(ns) = s.viol \/ PrintT("VIOL " \o ToString(s.c.t) \o " " \o ToString(l) \o " " \o ToString(Relevant(ns) \ s.viol)))
 AddViol(V) == [s EXCEPT !.viol = @ \cup V]
@@ -183,6 +190,7 @@ Sent ==
        !.sentSearch = IF lk /\ s.phase = "search" THEN @ \cup {Ev.p} ELSE @,
        !.sentReq = IF Ev.kind = "req" /\ Ev.typ = ReqTyp THEN @ \cup {Ev.p} ELSE @,
        !.putSent = IF Ev.typ \in {"PUT_VALUE", "ADD_PROVIDER"} THEN @ \cup {Ev.p} ELSE @,
+       !.putTs = IF Ev.typ \in {"PUT_VALUE", "ADD_PROVIDER"} THEN SetSt(@, Ev.p, Ev.ts) ELSE @,
        !.viol = @
          \cup (IF c.op = "putvalue" /\ Ev.kind = "req" /\ Ev.typ \in {"PUT_VALUE", "FIND_NODE"}
                THEN Flag(Ev.haslocal = c.putval, "C06", "a_sent_before_local_store") ELSE {})
@@ -221,7 +229,16 @@ Abort ==
   /\ Is("Abort")
   \* (the flush order within one quiescent interval puts published events before
   \* environment events, so the phase at this line says nothing about the moment of the abort)
-  /\ Step([s EXCEPT !.aborted = IF IsLookupReq(Ev) THEN @ \cup {Ev.p} ELSE @])
+  /\ Step([s EXCEPT
+       !.aborted = IF IsLookupReq(Ev) THEN @ \cup {Ev.p} ELSE @,
+       \* C06 (d): a store request is only ever cut by the caller's cancellation or deadline,
+       \* by its own 30 s budget (1 min for the optimistic provide), or by Close -
+       \* never because another recipient failed
+       !.viol = @ \cup (IF Ev.typ \in {"PUT_VALUE", "ADD_PROVIDER"} /\ Ev.p \in DOMAIN s.putTs
+                        THEN Flag(s.cancelled \/ s.closing \/ (c.timeout > 0 /\ Ev.ts >= c.timeout - (c.timeout \div 10) - 1000)
+                                  \/ Ev.ts - s.putTs[Ev.p] >= 30000,
+                                  "C06", "d_store_request_cut_short")
+                        ELSE {})])
 
 Cancel ==
   /\ Is("Cancel")
@@ -355,7 +372,7 @@ Left == Is("Left") /\ Step(AddViol(Flag(Ev.n = 0, "C03", "e_goroutines_after_clo
 \* wake them, when the run ended (reported by the Go runtime at the synctest bubble exit)
 Stuck == Is("Stuck") /\ Step(AddViol({<<"C03", "e_goroutines_blocked_forever">>}))
 
-PreClose == Is("PreClose") /\ Step(AddViol(Flag(s.ret # NoRet, "C03", "a_no_return")))
+PreClose == Is("PreClose") /\ Step([AddViol(Flag(s.ret # NoRet, "C03", "a_no_return")) EXCEPT !.closing = TRUE])
 
 Closed == Is("Closed") /\ Step(AddViol(Flag(Ev.ok, "C03", "e_close_blocked")))
 
